@@ -1,5 +1,6 @@
 use std::path::{Path, PathBuf};
 use tokio::sync::mpsc::{self, Sender};
+use tokio::sync::oneshot;
 
 use crate::engine::core::{InnerWalWriter, WalEntry};
 use crate::shared::config::CONFIG;
@@ -7,6 +8,9 @@ use tracing::{debug, error, info};
 
 pub enum WalMessage {
     Entry(WalEntry),
+    /// Close the current log file (if it holds entries) and reply with the id of the log that
+    /// receives every later entry.
+    Rotate(oneshot::Sender<u64>),
     Shutdown,
 }
 
@@ -49,6 +53,17 @@ impl WalHandle {
                 "Attempted to append to WAL with no active writer"
             );
         }
+    }
+
+    /// Starts a new WAL log file and returns its id. Every entry appended before this call is
+    /// stored in a log with a smaller id, every later entry in this log or a newer one, so the
+    /// returned id is the cut-off below which logs may be deleted once the events appended so
+    /// far have been flushed to a segment.
+    pub async fn rotate(&self) -> Option<u64> {
+        let sender = self.sender.as_ref()?;
+        let (tx, rx) = oneshot::channel();
+        sender.send(WalMessage::Rotate(tx)).await.ok()?;
+        rx.await.ok()
     }
 
     pub async fn shutdown(&self) {
@@ -129,6 +144,20 @@ impl WalHandle {
                                 );
                             }
                         }
+                    }
+                    WalMessage::Rotate(reply) => {
+                        if writer.entries_written > 0 {
+                            if let Err(err) = writer.rotate_log_file() {
+                                error!(
+                                    target: "wal_handle::spawn_wal_thread",
+                                    shard_id, err = ?err,
+                                    "WAL rotation failed"
+                                );
+                                // No boundary can be reported: the caller keeps all logs.
+                                continue;
+                            }
+                        }
+                        let _ = reply.send(writer.current_log_id);
                     }
                     WalMessage::Shutdown => {
                         info!(
